@@ -23,8 +23,8 @@ def R(i, ch=0):
     return dict(k='r', i=i, ch=ch)
 
 
-def Pm(i):
-    return dict(k='p', i=i, ch=0)
+def Pm(i, ch=0):
+    return dict(k='p', i=i, ch=ch)
 
 
 def Gen(cls, rate, a, nout=1):
@@ -51,8 +51,9 @@ def Prog(name, ctl, ins):
     return dict(name=name, ctl=list(ctl), ins=list(ins))
 
 
-def Ctl(n, r, d):
-    return dict(n=n, r=r, d=d)
+def Ctl(n, r, d, w=1):
+    """control parameter; w > 1: array-valued (tuple default ((d + ch) % 7 for ch < w), w slots under one name)"""
+    return dict(n=n, r=r, d=d, w=w)
 
 
 # ------------------------------------------------------------------ programs enumerated by TLC
@@ -164,7 +165,7 @@ def nontrivial(prog):
 
 # ------------------------------------------------------------------ seeded random programs for C02 / C20
 CTL_POOL = [('freq', 1, 440), ('amp', 1, 1), ('gate', 1, 1), ('bus', 1, 0), ('t_trig', 3, 0), ('ain', 2, 0),
-            ('irv', 0, 2), ('pan', 1, 0), ('out', 1, 0)]
+            ('irv', 0, 2), ('pan', 1, 0), ('out', 1, 0), ('amps', 1, 2, 3), ('freqs', 1, 1, 5), ('iarr', 0, 3, 2)]
 
 
 def random_program(rnd, n, name, *, wf=True, mce=True, bad=None, variants=False):
@@ -196,7 +197,8 @@ def random_program(rnd, n, name, *, wf=True, mce=True, bad=None, variants=False)
         if x < 0.25 or not anysig:
             return const()
         if x < 0.35 and ctl:
-            return Pm(rnd.randint(1, len(ctl)))
+            i = rnd.randint(1, len(ctl))
+            return Pm(i, rnd.randrange(ctl[i - 1]['w']))
         return rnd.choice(anysig)
 
     def audio():
@@ -421,4 +423,31 @@ def rate_check_program(rnd, name, multi_only=False):
         ins.append(Gen('Out', 2, [C(0)] + [R(k, ch) for ch in range(nout)], 0))
     else:
         ins.append(Gen('Out', 1, [C(0)] + [R(k, ch) for ch in range(nout)], 0))
+    return Prog(name, ctl, ins)
+
+
+def array_control_program(rnd, name, total):
+    """few control NAMES, many control SLOTS: one to four parameters, at least one array-valued, `total` slots in all
+    (the interesting totals sit around 255 / 256); the body reads the first, the last and some random channels"""
+    nnames = min(rnd.randint(1, 4), max(1, total - 1))
+    kinds = [rnd.choice([1, 1, 1, 0, 2, 3]) for _ in range(nnames)]
+    widths = [1] * nnames
+    big = rnd.randrange(nnames)
+    rest = total - nnames
+    for _ in range(rnd.randint(0, 2)):          # maybe split the slots over several arrays
+        j = rnd.randrange(nnames)
+        take = rnd.randint(0, rest)
+        widths[j] += take
+        rest -= take
+    widths[big] += rest
+    ctl = [Ctl('%s%d' % (rnd.choice(['amps', 'freqs', 'p']), j), kinds[j], rnd.randint(0, 6), widths[j])
+           for j in range(nnames)]
+    ins = [Gen('SinOsc', 2, [C(440), C(0)])]
+    picks = [Pm(big + 1, 0), Pm(big + 1, widths[big] - 1)]
+    for _ in range(rnd.randint(1, 6)):
+        j = rnd.randrange(nnames)
+        picks.append(Pm(j + 1, rnd.randrange(widths[j])))
+    for o in picks:
+        ins.append(Bin(rnd.choice(['*', '+']), R(len(ins)), o))
+    ins.append(Gen('Out', 2, [C(0), R(len(ins))], 0))
     return Prog(name, ctl, ins)
